@@ -167,6 +167,7 @@ type Entry struct {
 	Req     protocol.Message
 	Time    time.Time
 	First   bool // first request on its connection (the ApiVersions handshake of a Transport connection)
+	Addr    string // the address that was dialled for the connection the request arrived on
 }
 
 type Cluster struct {
@@ -187,7 +188,12 @@ type Cluster struct {
 	connSeq    int
 	metaServed int
 	lastMeta   *metadata.Response // last full (unfiltered request) metadata answer
-	conns      map[int]net.Conn
+	conns      map[int]connInfo
+}
+
+type connInfo struct {
+	conn net.Conn
+	addr string
 }
 
 func New() *Cluster {
@@ -200,7 +206,7 @@ func New() *Cluster {
 		CoordErr:   map[string]int16{},
 		Committed:  map[string]map[string]map[int32]Committed{},
 		CommitErr:  map[string]map[int32]int16{},
-		conns:      map[int]net.Conn{},
+		conns:      map[int]connInfo{},
 	}
 }
 
@@ -258,7 +264,7 @@ func (c *Cluster) Close() {
 	c.mu.Lock()
 	defer c.mu.Unlock()
 	for _, x := range c.conns {
-		x.Close()
+		x.conn.Close()
 	}
 }
 
@@ -279,22 +285,46 @@ func (c *Cluster) Dial(ctx context.Context, network, addr string) (net.Conn, err
 	}
 	id := br.ID
 	c.mu.Unlock()
-	return c.Pipe(id), nil
+	return c.pipe(id, addr), nil
 }
 
-// Pipe opens a connection to broker id and returns the client end.
+// Pipe opens a connection to broker id (at its current address) and returns the client end.
 func (c *Cluster) Pipe(id int32) net.Conn {
+	c.mu.Lock()
+	addr := c.Brokers[id].Addr()
+	c.mu.Unlock()
+	return c.pipe(id, addr)
+}
+
+func (c *Cluster) pipe(id int32, addr string) net.Conn {
 	cli, srv := net.Pipe()
 	c.mu.Lock()
 	c.connSeq++
 	cid := c.connSeq
-	c.conns[cid] = srv
+	c.conns[cid] = connInfo{srv, addr}
 	c.mu.Unlock()
-	go c.serve(id, cid, srv)
+	go c.serve(id, cid, addr, srv)
 	return cli
 }
 
-func (c *Cluster) serve(broker int32, cid int, conn net.Conn) {
+// MoveBroker re-registers broker id at another host:port (caller holds the lock): the process listening on
+// the old address is gone, so every connection that was dialled there is closed.
+func (c *Cluster) MoveBroker(id int32, host string, port int32) {
+	b := c.Brokers[id]
+	old := b.Addr()
+	b.Host, b.Port = host, port
+	if b.Addr() == old {
+		return
+	}
+	for cid, x := range c.conns {
+		if x.addr == old {
+			x.conn.Close()
+			delete(c.conns, cid)
+		}
+	}
+}
+
+func (c *Cluster) serve(broker int32, cid int, addr string, conn net.Conn) {
 	defer conn.Close()
 	first := true
 	for {
@@ -303,7 +333,7 @@ func (c *Cluster) serve(broker int32, cid int, conn net.Conn) {
 			return
 		}
 		c.mu.Lock()
-		c.journal = append(c.journal, Entry{Seq: len(c.journal), Broker: broker, ConnID: cid, ApiKey: msg.ApiKey(), Version: ver, Req: msg, Time: time.Now(), First: first})
+		c.journal = append(c.journal, Entry{Seq: len(c.journal), Broker: broker, ConnID: cid, ApiKey: msg.ApiKey(), Version: ver, Req: msg, Time: time.Now(), First: first, Addr: addr})
 		first = false
 		res := c.handle(broker, ver, msg)
 		c.mu.Unlock()
